@@ -30,7 +30,7 @@ Ops(w) ==
   {[name |-> "remove", c |-> c, x |-> x] : c \in C, x \in K} \cup
   {[name |-> "set_parent", c |-> c, x |-> x] : c \in O \cup {NONE}, x \in K} \cup
   {[name |-> "setitem", c |-> c, i |-> i, x |-> x] : c \in C, i \in 1..2, x \in K} \cup
-  {[name |-> "reorder", x |-> x, i |-> i] : x \in K, i \in 0..2} \cup
+  {[name |-> "reorder", x |-> x, i |-> i] : x \in K, i \in -2..2} \cup
   {[name |-> "rename", x |-> x, n |-> n] : x \in K, n \in Names \cup {NONE, "empty"}} \cup
   (IF IdNames THEN {[name |-> "new_id", x |-> x, y |-> y] : x \in K, y \in K \cup {NONE}} ELSE {}) \cup
   (IF Unborn(w) = {} THEN {} ELSE LET h == CHOOSE h \in Unborn(w) : TRUE IN
